@@ -76,3 +76,4 @@ LEVEL = {
     'technique': 'Coq proof (refinement of the bucket-level mechanism model to a plain map; inductive invariant of the id allocator) '
                  '+ history replay of the real shard against the spec and the model',
 }
+CFG['rule'] = CFG['rule'] + ' ' + 'Id pools: two histories of three contain the all-zero / the all-ones uuid.'
